@@ -86,6 +86,17 @@ def check_copydimension(ctx, rule='R-UNLIM'):
         names = [s.targets[0].id for s in e if isinstance(s, ast.Assign) and isinstance(s.value, ast.Call)
                  and (dotted(s.value.func) or '').endswith('createDimension') and isinstance(s.targets[0], ast.Name)]
         ok_pnc = bool(names) and any(isinstance(s, ast.Expr) and norm(s) == '%s.setunlimited(unlimited)' % names[0] for s in e)
+    # optional parameters are tested with `is None` (0 is a valid length, '' is not a valid key but truthiness would also swallow 0)
+    from .. import lints
+    tg = lints.truthy_optional_guards(fn, ('dimlen', 'key', 'unlimited'))
+    if tg:
+        for st in tg:
+            ctx.rule('R-NONEGUARD', "optional numeric parameters are tested with 'is None' (0 is a valid value)")
+            ctx.violation(Finding('R-NONEGUARD', 'core/_files.py', 'PseudoNetCDFFile.copyDimension', st, "optional parameter tested with '%s': a requested length of 0 (an empty selection) is "
+                                  'treated as "not given" and the dimension keeps its source length' % norm(st.test)), oid='none-guard')
+    else:
+        ctx.rule('R-NONEGUARD', "optional numeric parameters are tested with 'is None' (0 is a valid value)")
+        ctx.ok('R-NONEGUARD', 'copyDimension: optional parameters tested with is None', where, 'dimlen/key/unlimited')
     # no re-assignment of the flag
     reass = [st for st in iter_stmts(fn.body) if isinstance(st, ast.Assign) and any(isinstance(t, ast.Name) and t.id == 'unlimited' for t in st.targets)]
     single = len(reass) == 1
@@ -210,6 +221,37 @@ def check_ncattr(ctx):
         ctx.violation(Finding('R-NCATTR', 'core/_variables.py', 'PseudoNetCDFVariable.__array_finalize__', af.body[-1],
                               'names are copied from the source array but their attributes are not'))
     ctx.floor('_ncattrs stores', n, 8)
+    # public attributes are created/removed only through __setattr__/__delattr__ (which maintain the list):
+    # object.__setattr__/__delattr__ with a non-private name is confined to those two methods and the array life-cycle hooks
+    nb = 0
+    for rp, classes in (('core/_files.py', ('PseudoNetCDFFile',)), ('core/_variables.py', ('PseudoNetCDFVariable', 'PseudoNetCDFMaskedVariable'))):
+        mod = src.mod(rp)
+        for q, fn in sorted(mod.functions.items()):
+            parts = q.split('.')
+            if len(parts) != 2 or parts[0] not in classes:
+                continue
+            for c in walk_expr(fn):
+                if isinstance(c, ast.Call) and dotted(c.func) in ('object.__setattr__', 'object.__delattr__') and len(c.args) >= 2:
+                    nb += 1
+                    nm = const_str(c.args[1])
+                    private = nm is not None and (nm.startswith('_') or nm in ('typecode', 'dimensions'))
+                    if parts[1] in ('__setattr__', '__delattr__', '__array_finalize__') or private:
+                        ctx.ok('R-NCATTR', '%s:%s' % (q, norm(c)[:40]), 'src/PseudoNetCDF/%s %s' % (rp, q), 'life-cycle method or private name')
+                    else:
+                        ctx.violation(Finding('R-NCATTR', rp, q, api.stmt_of(c), '%s bypasses __setattr__/__delattr__ for a public attribute: the attribute-name list is not '
+                                              'updated, so a listed attribute is not retrievable (or an existing one is not listed)' % dotted(c.func)))
+    ctx.floor('object.__setattr__/__delattr__ call sites', nb, 6)
+    # delncattr / setncattr delegate to the maintained methods
+    fm = src.mod('core/_files.py')
+    for meth, want in (('delncattr', ('self.__delattr__(k)', 'delattr(self, k)')), ('setncattr', ('return setattr(self, k, v)', 'setattr(self, k, v)', 'self.__setattr__(k, v)'))):
+        f8 = fm.func('PseudoNetCDFFile.' + meth)
+        body = [norm(s2) for s2 in f8.body if not (isinstance(s2, ast.Expr) and isinstance(s2.value, ast.Constant))]
+        if len(body) == 1 and body[0] in want:
+            ctx.ok('R-NCATTR', meth, 'src/PseudoNetCDF/core/_files.py PseudoNetCDFFile.%s' % meth, body[0])
+        elif any(w in ' ; '.join(body) for w in want):
+            ctx.ok('R-NCATTR', meth, 'src/PseudoNetCDF/core/_files.py PseudoNetCDFFile.%s' % meth, 'delegates to the maintained method')
+        else:
+            ctx.violation(Finding('R-NCATTR', 'core/_files.py', 'PseudoNetCDFFile.' + meth, f8.body[-1], '%s does not go through the method that maintains the attribute-name list' % meth))
 
 
 def check_axisperm(ctx):
@@ -335,3 +377,20 @@ def run(ctx):
     check_ncattr(ctx)
     check_axisperm(ctx)
     check_varstore(ctx)
+    # binary operators: the result file's dimensions are a copy of the left operand's, so every result variable must take its
+    # dimension tuple from the left operand's variable
+    ctx.rule('R-DIMSRC', 'pncbo: result variables are dimensioned like the variables of the file whose dimensions were copied')
+    fu = ctx.src.mod('core/_functions.py')
+    pb = fu.func('pncbo')
+    first = [st for st in pb.body if isinstance(st, ast.Assign) and 'ifile1.copy(' in norm(st.value)]
+    cvs = [c for c in walk_expr(pb) if isinstance(c, ast.Call) and (dotted(c.func) or '').endswith('.createVariable')]
+    wp = 'src/PseudoNetCDF/core/_functions.py pncbo'
+    if not first or not cvs:
+        raise AnalysisError('construct not understood: pncbo result construction')
+    for c in cvs:
+        dims = c.args[2] if len(c.args) > 2 else kw(c, 'dimensions')
+        if dims is not None and norm(dims) == 'in1var.dimensions':
+            ctx.ok('R-DIMSRC', norm(c)[:50], wp, 'dimensions copied from ifile1; variable dimensioned with in1var.dimensions')
+        else:
+            ctx.violation(Finding('R-DIMSRC', 'core/_functions.py', 'pncbo', api.stmt_of(c), 'the result file carries the dimensions of ifile1 but the variable is created with %s: '
+                                  'its dimension names need not exist in the result' % (norm(dims) if dims is not None else None)))
